@@ -347,7 +347,8 @@ func RunProperty(args []string) int {
 	solverS := 0.0
 	trusted := map[string]bool{}
 	var funcs, inlined, uncontracted []string
-	vacOK, vacBad, vacUnk := 0, 0, 0
+	vacOK, vacBad, vacUnk, callProbesOK := 0, 0, 0, 0
+	usedContracts, safetyOnly, fullMode := map[string]bool{}, map[string]bool{}, map[string]bool{}
 	var samples []map[string]interface{}
 	var knownSeen []string
 	printedFinding := map[string]bool{}
@@ -366,6 +367,16 @@ func RunProperty(args []string) int {
 			for k := range r.Unit.Assumed {
 				trusted[k] = true
 			}
+			for k := range r.Unit.UsedContracts {
+				usedContracts[shortKey(k)] = true
+			}
+			if r.Unit.Fn != nil && r.Unit.C != nil && r.Refused == "" {
+				if r.Unit.SafetyOnly {
+					safetyOnly[shortKey(r.Key)] = true
+				} else {
+					fullMode[shortKey(r.Key)] = true
+				}
+			}
 			for k := range r.Unit.Inlined {
 				inlined = append(inlined, shortKey(k))
 			}
@@ -381,6 +392,11 @@ func RunProperty(args []string) int {
 			fmt.Printf("VACUOUS: %s has no satisfiable return path (contradictory contract?)\n", shortKey(r.Key))
 			exitBroken = true
 		}
+		for _, k := range r.CallVacuous {
+			fmt.Printf("VACUOUS: call %s: the callee's contract contradicts the caller's state (path feasible before the call, infeasible after)\n", k)
+			exitBroken = true
+		}
+		callProbesOK += r.CallProbesOK
 		// known findings for this unit
 		var unitFindings []Finding
 		for _, f := range findings {
@@ -488,11 +504,12 @@ func RunProperty(args []string) int {
 	// evidence
 	var tb []string
 	tb = append(tb, "go/ssa (x/tools v0.29.0) NaiveForm translation of /repo's working tree", "govc VC generator (/verif/govc)",
-		"SMT solvers z3 4.8.12, z3 5.1.0, cvc5 1.0.3", "amd64: int is 64 bits")
+		"SMT solvers z3 4.8.12, z3 5.1.0, cvc5 1.0.3", "amd64: int is 64 bits",
+		"methods of interfaces implemented outside /repo (io.Reader, io.Writer, error, fmt.Stringer, user orb.Pointer values) and functions outside /repo without a stated contract write only memory reachable from their arguments")
 	for k := range trusted {
 		tb = append(tb, k)
 	}
-	sort.Strings(tb[4:])
+	sort.Strings(tb[5:])
 	sort.Strings(inlined)
 	sort.Strings(uncontracted)
 	sort.Slice(records, func(i, j int) bool { return records[i].Name < records[j].Name })
@@ -515,6 +532,9 @@ func RunProperty(args []string) int {
 			"trusted_base":                 tb,
 			"functions_under_contract":     dedup(funcs),
 			"inlined_callees":              dedup(inlined),
+			"callee_contracts_used":        keysOf(usedContracts),
+			"contracts_verified_in_full":   keysOf(fullMode),
+			"contracts_checked_safety_only": keysOf(safetyOnly),
 			"uncontracted_callees_havoced": dedup(uncontracted),
 			"by_backend":                   byBackend,
 			"solver_s":                     solverS,
@@ -523,7 +543,7 @@ func RunProperty(args []string) int {
 			"bounded":                      ps.Bounded,
 			"arithmetic":                   "int/int64: mathematical integers with an `ovf` obligation on every + - * (proved in range); other integer types: explicit wrap modulo 2^N; Go truncating / and %; floats per function: ieee (SMT FloatingPoint), bits (BV64 payload) or abstract (uninterpreted ops)",
 			"dropped_by_translation":       []string{"defer/rundefers bookkeeping (no defer in scope; a function using defer/go/select/chan is refused as `subset`)", "calls outside /repo: assumed contracts / IEEE models listed in trusted_base", "function values: uninterpreted pure total functions", "GC, stack growth, scheduling"},
-			"vacuity":                      map[string]int{"return_paths_sat": vacOK, "return_paths_unsat": vacBad, "return_paths_unknown": vacUnk},
+			"vacuity":                      map[string]int{"return_paths_sat": vacOK, "return_paths_unsat": vacBad, "return_paths_unknown": vacUnk, "call_sites_feasible_after_contract": callProbesOK},
 			"known_findings_seen":          knownSeen,
 			"obligation_list":              records,
 		},
@@ -670,4 +690,13 @@ func matchObl(pat, name string) bool {
 		return strings.HasPrefix(name, strings.TrimSuffix(pat, "*"))
 	}
 	return pat == name
+}
+
+func keysOf(m map[string]bool) []string {
+	out := []string{}
+	for k := range m {
+		out = append(out, k)
+	}
+	sort.Strings(out)
+	return out
 }
